@@ -379,7 +379,61 @@ def reentrancy_job(job, st):
     return res
 
 
+# --- (i') histories over a base / derived pair ----------------------------------------------------------
+PAIR_BASE = 'grammar %(b)s\nstart = Many("x")\nMany(p) = (p | "y")*\n'
+PAIR_CHILD = 'grammar %(c)s extends %(b)s\nignore / +/\nstart = Many("x") << "!"?\n'
+PAIR_OPS = [('base', 'xx'), ('base', 'x x'), ('base', 'xyx'), ('child', 'x x x!'), ('child', 'xx'), ('child', 'x y !')]
+
+
+def pair_build():
+    uid = e1.unique_name('c18p')
+    b = impl.build(PAIR_BASE % {'b': uid})
+    c = impl.build(PAIR_CHILD % {'b': uid, 'c': uid + '_c'})
+    if b[0] != 'OK' or c[0] != 'OK':
+        raise RuntimeError('pair scenario does not compile: %r %r' % (b, c))
+    return uid, {'base': b[1], 'child': c[1]}
+
+
+def pair_job(job, st):
+    _, first, depth = job
+    res = new_res()
+    sigs = set()
+    if 'pair_base' not in st:
+        st['pair_base'] = {}
+        for op in PAIR_OPS:
+            uid, m = pair_build()
+            st['pair_base'][op] = outcome(m[op[0]], (None, op[1], 0, True))
+            impl.uninstall(uid + '_c')
+            impl.uninstall(uid)
+    base = st['pair_base']
+    for L in range(1, depth + 1):
+        for rest in itertools.product(PAIR_OPS, repeat=L - 1):
+            hist = (first,) + rest
+            uid, m = pair_build()
+            res['ctr']['states'] += 1
+            try:
+                for k, op in enumerate(hist):
+                    got = outcome(m[op[0]], (None, op[1], 0, True))
+                    res['ctr']['cases'] += 1
+                    res['ctr']['transitions'] += 1
+                    if k:
+                        res['ctr']['nontrivial'] += 1
+                    if got != base[op]:
+                        case = {'history': [list(o) for o in hist[:k + 1]], 'scenario': 'base without ignore / derived with ignore'}
+                        add_viol(res, sigs, 'pair-history outcome-depends-on-earlier-use-of-the-other-module', case, base[op], got)
+                        if got[0] == 'DIVERGES':
+                            res['_retire'] = True
+                            return res
+            finally:
+                impl.uninstall(uid + '_c')
+                impl.uninstall(uid)
+    res['sample'] = {'pair_history': [list(first)] + [list(o) for o in PAIR_OPS[:depth - 1]]}
+    return res
+
+
 def dispatch(job, st):
+    if job[0] == 'pair':
+        return pair_job(job, st)
     if job[0] == 'hist':
         return history_job(job, st)
     if job[0] == 'sched':
@@ -391,6 +445,8 @@ def all_jobs(tier):
     depth = 3 if tier == 'quick' else 4
     for op in history_ops():
         yield ('hist', op, depth)
+    for op in PAIR_OPS:
+        yield ('pair', op, 4 if tier == 'quick' else 5)
     for ci in range(len(CALLS)):
         yield ('reent', ci, tier == 'thorough' and ci in (0, 2, 6))
     # threads: pairs of parse calls (different texts, offsets, entries; failing; raising), line granularity
@@ -424,7 +480,7 @@ def run(tier, seed):
     chk.rule = ('one grammar (classes, ignore, template, inline-Python callback, error paths): (i) ALL histories of length <= 3 (thorough 4) '
                 'over 18 operations (9 parse calls with different texts / offsets / entry rules / fullparse, a call abandoned by a raising '
                 'callback, building another grammar, building a grammar that reuses the name, building a grammar that extends it and adds an ignore, 3 calls through that derived grammar), each '
-                'replayed on a freshly built module; (ii) ALL thread interleavings with <= 1 preemption of every pair of 8 call bodies (incl. '
+                'replayed on a freshly built module, plus all histories of length <= 4 (5) over 6 calls through a base grammar without ignore and a derived grammar with one; (ii) ALL thread interleavings with <= 1 preemption of every pair of 8 call bodies (incl. '
                 'failing and raising ones) and of a parse against a concurrent Grammar() construction, <= 2 preemptions on reduced pairs '
                 '(thorough: 3 threads, opcode granularity), scheduling points = line events of the generated module under a baton '
                 'scheduler; (iii) EVERY single deviation (nested parse discarded / embedded x 7 calls, raise) at every inline-Python '
